@@ -56,7 +56,8 @@ def build(cfg, delayed):
         return neural.LinearDirect((2,), dt, synapse=ctor, delay=delay, batch_size=B, bias=cfg["bias"])
     if kind == "lateral":
         return neural.LinearLateral((2,), dt, synapse=ctor, delay=delay, batch_size=B, bias=cfg["bias"])
-    return neural.Conv2D(2, 2, 1, 2, dt, (1, 2), synapse=ctor, delay=delay, batch_size=B, bias=cfg["bias"])
+    H, W, kh, kw = cfg.get("geom", (2, 2, 1, 2))
+    return neural.Conv2D(H, W, 1, 2, dt, (kh, kw), synapse=ctor, delay=delay, batch_size=B, bias=cfg["bias"])
 
 
 def h_shift(e, cfg):
@@ -147,21 +148,25 @@ def h_shift(e, cfg):
                     ss[b, i, 0] = shifted_spike((b, i), da[i])
                     v = T.mul(wa[i], sc[b, i, 0])
                     exp[b, i] = T.add(v, ba[i]) if ba is not None else v
-        else:  # conv: input 1x2x2, kernel (1,2) -> synapse shape (N=2, L=2), output (F=2, 2, 1)
-            Fn, Nn, L = 2, 2, 2
-            exp = np.empty((B, Fn, 2, 1), dtype=object)
+        else:  # conv: 1 input channel, F=2 filters; synapse shape (N = kh*kw, L = Ho*Wo) in unfold order n = a*kw + b
+            H_, W_, kh, kw = cfg.get("geom", (2, 2, 1, 2))
+            Ho, Wo = H_ - kh + 1, W_ - kw + 1
+            Fn, Nn, L = 2, kh * kw, Ho * Wo
+            exp = np.empty((B, Fn, Ho, Wo), dtype=object)
             sc = np.empty((B, Nn, L, Fn), dtype=object)
             ss = np.empty((B, Nn, L, Fn), dtype=object)
             for b in range(B):
                 for f in range(Fn):
                     for l in range(L):
                         v = F(0)
-                        for n_ in range(Nn):
-                            d = da[f, 0, 0, n_]
-                            sc[b, n_, l, f] = shifted_current((b, n_, l), d)
-                            ss[b, n_, l, f] = shifted_spike((b, n_, l), d)
-                            v = T.add(v, T.mul(wa[f, 0, 0, n_], sc[b, n_, l, f]))
-                        exp[b, f, l, 0] = T.add(v, ba[f]) if ba is not None else v
+                        for a in range(kh):
+                            for bb in range(kw):
+                                n_ = a * kw + bb
+                                d = da[f, 0, a, bb]
+                                sc[b, n_, l, f] = shifted_current((b, n_, l), d)
+                                ss[b, n_, l, f] = shifted_spike((b, n_, l), d)
+                                v = T.add(v, T.mul(wa[f, 0, a, bb], sc[b, n_, l, f]))
+                        exp[b, f, l // Wo, l % Wo] = T.add(v, ba[f]) if ba is not None else v
         e.oblige_eq("shift:forward", outD, exp, split=True, step=t)
         if cfg["delays"] == "zero":
             e.oblige_eq("zero-delay:same-as-undelayed", outD, e.read(outU), step=t)
@@ -196,6 +201,9 @@ def checks(tier):
                         for B in ((1, 2) if th else (1,)):
                             cfgs.append(dict(kind=kind, syn=syn, dt=dt, max=mmul * dt, delays=delays, B=B, bias=(kind == "dense"), T=(5 if th else 3),
                                              clear=(delays == "zero")))
+                            if kind == "conv" and delays != "zero" and (th or (syn in ("delta", "single") and dt == 1.3)):
+                                # a kernel with both sides > 1: the flattening order of the per-synapse delays matters
+                                cfgs.append(dict(kind=kind, syn=syn, dt=dt, max=mmul * dt, delays=delays, B=B, bias=False, T=(3 if th else 2), clear=False, geom=(2, 3, 2, 2)))
     o = {"div_policy": "xr", "query_timeout_ms": 180000}
     return [Check("shift", h_shift, cfgs, opts=o, timeout_s=2400)]
 
